@@ -104,6 +104,18 @@ p_paddr instead of p_vaddr) was invisible because the ELF generator always wrote
 also loads files in which they differ (and p_align / e_entry vary).  Two more constants of the harness were
 varied for the same reason: the binding / type / section index of the symbol `___exit` (C12) and the fd word of
 the write call (C14: a write that is carried out for fd <= 2 only was invisible, every scenario used fd 1).
+In the following session the same was done for the loader's three table look-ups (`seeded/hand/`): a loader that
+reads the program headers at e_ehsize instead of e_phoff, one that takes "the last e_shnum entries of the file"
+for the section header table instead of e_shoff, and one that looks the symbol names up in the section called
+`.strtab` instead of the one `.symtab` links to all kept the suite green and were invisible to C11 / C12 - every
+generated file (like everything GNU ld writes) had e_phoff = 52, the section headers last and the linked string
+table called `.strtab`.  The generator now also writes files with a gap in front of the program headers, with
+the program headers at the very end of the file, with padding behind the section headers, and with the symbol
+string table called `.dynstr` / `.strtab2` next to a decoy `.strtab` (x three section orders); all three probes
+are reported.  Six more one-point changes in instruction files no sub-agent had touched (SUBS #2 for one value,
+EXTU.L with Z from the low byte, ROTL.L with Z from the low word, SHLR.L keeping N for one value, NOT.L keeping
+V for one value, BST #7,@H'1F:8 not clearing) kept the suite green and were all reported at once by C02 / C03 /
+C04 (a seventh, ROTR.W, turned out to be equivalent).
 """)
     out.append(f"""### 11.1 Round 1 - two changes per property ("needs something specific to manifest")
 
@@ -181,9 +193,10 @@ rewrite, lines cut into three pieces on the wire, the socket stream up to the en
 {HEAD}
 """ + "\n".join(r4) + "\n")
     if r5:
-        out.append(f"""### 11.5 Round 5 - "an edge of the quantifier / an interaction of two existing features" (12 properties)
+        out.append(f"""### 11.5 Rounds 5 and 6 - "an edge of the quantifier / an interaction of two existing features" (all 20 properties)
 
-Last round, for twelve properties, while the final self-tests ran.  The sub-agents were told the titles of
+Round 5: twelve properties, while the final self-tests ran; round 6 (the following session): the other eight
+(C02, C03, C04, C07, C08, C15, C18, C20), same brief.  The sub-agents were told the titles of
 the eight earlier changes and asked for (M9) a natural-looking slip at an extreme-but-legal corner that the
 FOR ALL explicitly includes and (M10) a change that breaks the property only where two existing features
 of the emulator meet (an interrupt next to the operation, pause / resume, a host message in the same poll,
